@@ -357,6 +357,10 @@ func TestReplay(t *testing.T) {
 	if err := json.Unmarshal(cf.Case, &c); err != nil {
 		t.Fatal(err)
 	}
+	if cf.Sub == "run" {
+		checkRun(t, c)
+		return
+	}
 	check(t, c, cf.Sub)
 }
 
